@@ -327,6 +327,11 @@ func (mi *MutantInjector) mutantsOf(n *Node, b *blockchain.Block, gen *Validator
 	ac := h.AggregateCommit
 	if len(ac.AggregationBits) == 0 && len(ac.CertificateSignature) == 0 {
 		add("aggregateCommit-height", gen, func(c *blockchain.Block) { c.Header.AggregateCommit.Height = ac.Height + 1 })
+		if ac.Height > 0 {
+			// an empty commit names the certified height itself; one that names an earlier height is stale
+			back := uint32(1 + simkit.Int(t, "macback", 0, int(ac.Height)-1))
+			add("aggregateCommit-height-below-certified", gen, func(c *blockchain.Block) { c.Header.AggregateCommit.Height = ac.Height - back })
+		}
 		add("aggregateCommit-forged", gen, func(c *blockchain.Block) {
 			c.Header.AggregateCommit.Height = ac.Height + 1
 			c.Header.AggregateCommit.AggregationBits = []byte{0xff}
